@@ -139,11 +139,14 @@ def chunkOfR (floor nnode : Int) (np : Nat) : Int :=
     every rank stores the first `rows.length` rows of its buffer -/
 def chunkStep (dup : Bool) (nnode read : Int) (chunk : Nat) (rows : List Row) (w : World Rank) :
     Except Status (World Rank) :=
-  let bufs := w.mapIdx fun r st => if r = 0 then writeAt st.buf 0 rows else st.buf
-  let b := bcast RefType.dbl chunk bufs
-  if b.any (fun x => x.1 != Comm.Status.ok) then .error .implement else
-  .ok ((w.zip b).map fun (st, x) =>
-    { st with buf := x.2, arr := scatterRows dup nnode st.globals read (x.2.take rows.length) st.arr })
+  match w with
+  | [] => .ok []
+  | st0 :: rest =>
+    let bufs := writeAt st0.buf 0 rows :: rest.map (·.buf)
+    let b := bcast RefType.dbl chunk bufs
+    if b.any (fun x => x.1 != Comm.Status.ok) then .error .implement else
+    .ok ((w.zip b).map fun p =>
+      { p.1 with buf := p.2.2, arr := scatterRows dup nnode p.1.globals read (p.2.2.take rows.length) p.1.arr })
 
 /-- the `while (nnode_read < nnode)` loop; `section_size = MIN(chunk, limit - nnode_read)`;
     `rd k` reads `k` rows on rank 0 -/
